@@ -4022,14 +4022,14 @@ size_t ZBUFFv06_decompressContinue(ZBUFFv06_DCtx* zbd,
                     free(zbd->inBuff);
                     zbd->inBuffSize = blockSize;
                     zbd->inBuff = (char*)malloc(blockSize);
-                    if (zbd->inBuff == NULL) return ERROR(memory_allocation);
+                    if (zbd->inBuff == NULL) { zbd->inBuffSize = 0; return ERROR(memory_allocation); }   /* no size without a buffer : the context may be used again */
                 }
                 {   size_t const neededOutSize = ((size_t)1 << zbd->fParams.windowLog) + blockSize + WILDCOPY_OVERLENGTH * 2;
                     if (zbd->outBuffSize < neededOutSize) {
                         free(zbd->outBuff);
                         zbd->outBuffSize = neededOutSize;
                         zbd->outBuff = (char*)malloc(neededOutSize);
-                        if (zbd->outBuff == NULL) return ERROR(memory_allocation);
+                        if (zbd->outBuff == NULL) { zbd->outBuffSize = 0; return ERROR(memory_allocation); }   /* no size without a buffer : the context may be used again */
             }   }   }
             zbd->stage = ZBUFFds_read;
 	    /* fall-through */
